@@ -141,12 +141,12 @@ void relations()
 {
   sset const A{fresh_set("A_lo", "A_hi", N)}, B{fresh_set("B_lo", "B_hi", N)};
   bf<N, W> const a{build<N, W>(A)}, b{build<N, W>(B)};
-  bool same{true}, sub{true};
-  for (unsigned i = 0; i < N; ++i)
-  {
-    if (A.has(i) != B.has(i)) same = false;
-    if (A.has(i) && !B.has(i)) sub = false;
-  }
+  // set equality / inclusion on the low N bits of the two words (straight-line: no branch per enumerator)
+  constexpr std::uint64_t mlo{N >= 64 ? ~std::uint64_t{0} : ((std::uint64_t{1} << (N % 64)) - 1U)};
+  constexpr std::uint64_t mhi{N <= 64 ? std::uint64_t{0} : ((std::uint64_t{1} << ((N - 64) % 64)) - 1U)};
+  std::uint64_t const alo{A.lo & mlo}, ahi{A.hi & mhi}, blo{B.lo & mlo}, bhi{B.hi & mhi};
+  bool const same{alo == blo && ahi == bhi};
+  bool const sub{(alo & ~blo) == 0 && (ahi & ~bhi) == 0};
   verif_out("same", same);
   verif_assert((a == b) == same, "== is set equality");
   verif_assert((a != b) == !same, "!= is its negation");
@@ -208,10 +208,14 @@ void setget()
 //@harness h_rel_{N}_{W} for N in 1,3,8,9,17 for W in u8,u16,u32,u64 tier=quick loop=140
 //@harness h_setget_{N}_{W} for N in 1,3,8,9,17 for W in u8,u16,u32,u64 tier=quick loop=140
 //@harness h_ops2_{N}_{W} for N in 3,9 for W in u8,u32 tier=quick loop=140
-//@harness h_ops_{N}_{W} for N in 33,64,65 for W in u8,u16,u32,u64 tier=thorough loop=140
+//@harness h_ops_{N}_{W} for N in 33,64 for W in u32,u64 tier=thorough loop=140
+//@harness h_ops_65_u64 tier=thorough loop=140
+// (h_ops for 33/64/65 enumerators in 8/16-bit words and 65 in 32-bit words, i.e. 3-9 storage words: the equality-with-rebuilt
+//  query gets no z3 answer within 60 s; outside the claim.  set/get and the relations are decided for all of them.)
 //@harness h_rel_{N}_{W} for N in 33,64,65 for W in u8,u16,u32,u64 tier=thorough loop=140
 //@harness h_setget_{N}_{W} for N in 33,64,65 for W in u8,u16,u32,u64 tier=thorough loop=140
-//@harness h_ops2_{N}_{W} for N in 1,8,17,33 for W in u8,u16,u32,u64 tier=thorough loop=140
+//@harness h_ops2_{N}_{W} for N in 1,8,17 for W in u8,u16,u32,u64 tier=thorough loop=140
+//@harness h_ops2_33_{W} for W in u32,u64 tier=thorough loop=140
 // (depth-2 expressions over 65 enumerators: z3 gave no answer within 60 s per query; outside the claim)
 #define INSTN(N) INST(N, std::uint8_t, u8) INST(N, std::uint16_t, u16) INST(N, std::uint32_t, u32) INST(N, std::uint64_t, u64)
 INSTN(1)
